@@ -11,7 +11,7 @@ RULE = ('events __invert__/__and__/__or__/__xor__ (and reflected forms with an i
         'n_word-bit pattern is NOT/AND/OR/XOR of the operands\' patterns (code mod 2^n_word; masks reduced mod 2^n_word), x unchanged; operands of '
         'different word lengths must raise; the laws ~~x==x, ~x==-x-LSB (signed), De Morgan are evaluated through the library. Key = (op, signedness '
         'pair, y kind, word class, top bits of the two patterns); non-trivial = at least one operand pattern has the top bit set.')
-DECIDING_OPS = ['__invert__', '__and__', '__or__', '__xor__', ('__rand__', '__ror__', '__rxor__')]
+DECIDING_OPS = ['__invert__', '__and__', '__or__', '__xor__', ('__rand__', '__ror__', '__rxor__'), ('__iand__', '__ior__', '__ixor__')]
 ANCHORS = ['objects.Fxp.__invert__', 'objects.Fxp.__and__', 'objects.Fxp.__or__', 'objects.Fxp.__xor__', 'utils.binary_invert', 'utils.binary_and',
            'utils.binary_or', 'utils.binary_xor', 'utils.twos_complement_repr']
 EXHAUSTIVE = {'quick': 'all code pairs for n_word<=4, every signedness combination, n_frac in {0, n_word//2, n_word}; y as Fxp and as integer mask',
@@ -183,6 +183,15 @@ def run_case(case, ctx):
                     _try(lambda: mk & x)
                     _try(lambda: mk | x)
                     _try(lambda: mk ^ x)
+            # in-place forms
+            import operator
+            for b in (loy, hiy, (loy + hiy) // 2):
+                for op_ in (operator.iand, operator.ior, operator.ixor):
+                    xi = Fxp(a, sx, w, nf, raw=True)
+                    yb = Fxp(b, sy, w, nfy, raw=True)
+                    _try(lambda: op_(xi, yb))
+                    xi = Fxp(a, sx, w, nf, raw=True)
+                    _try(lambda: op_(xi, b if b >= 0 else b))
             laws(ctx, x, Fxp(loy if a % 2 else hiy, sy, w, nfy, raw=True))
         # arrays: ~ only
         _try(lambda: ~Fxp(np.arange(lox, hix + 1), sx, w, nf, raw=True))
@@ -224,6 +233,23 @@ def run_case(case, ctx):
     _try(lambda: mk & x)
     _try(lambda: mk | x)
     _try(lambda: mk ^ x)
+    import operator
+    for op_ in (operator.iand, operator.ior, operator.ixor):
+        xi = Fxp(a, sx, w, nf, raw=True)
+        _try(lambda: op_(xi, y))
+        xi = Fxp(a, sx, w, nf, raw=True)
+        _try(lambda: op_(xi, mk))
+    # float-valued operands (created from values, n_frac > 0) at 54..63 bits
+    if nf > 0 and w <= 63:
+        xv = _try(lambda: Fxp(float(a) / 2.0 ** nf, sx, w, nf)) if abs(a) < 2 ** 53 else None
+        xr = Fxp(a, sx, w, nf, raw=True)
+        xr.vdtype = float
+        for xx in (xv, xr):
+            if xx is not None:
+                _try(lambda: ~xx)
+                _try(lambda: xx & y)
+                _try(lambda: xx | y)
+                _try(lambda: xx ^ mk)
     laws(ctx, x, y)
     z = Fxp(1, sy, w + rng.choice([-1, 1]), 0, raw=True)
     _try(lambda: x & z)
